@@ -165,6 +165,10 @@ func daoScenarios(run *vh.Run, dir string, thorough bool) {
 	run.Count("scenario-unstake-refreshes-five-issues")
 	s.day()
 	s.probe("dao-after-unstake", contractAddr, []int{0, 1})
+	// a stake withdrawn completely (its votes stay recorded with amount 0), then every kind of transaction by that account
+	s.must(1, sys, `{"Name":"v1unstake"}`, coins(10000))
+	s.day()
+	s.probe("dao-fully-unstaked", contractAddr, []int{1})
 
 	// ---- regression of 3f9132cd: a 39-character parameter candidate tied with a short one, both orders, many
 	// executions on the same state (which pairs VoteList.Less compares depends on Go's map iteration order)
